@@ -29,7 +29,7 @@ def profile(name, **kw):
         callers=(1, 3), small=False, check_all_every=16, nontarget=True,
         tx=dict(edit=6, query=3, derive_edit=0, relabel=0, twin=0, pair=0, mutant=0,
                 enum=0, enant=0, react=0, persist=0, algebra=0, faults=0, flip=0,
-                isomers=0, symnum=0, wlpair=0, large=0, hubs=0, copies=0, dense=0, changeshare=0, known=0, treepair=0, build=1),
+                isomers=0, symnum=0, wlpair=0, large=0, hubs=0, copies=0, dense=0, changeshare=0, known=0, treepair=0, religand=0, build=1),
         fault_rate=(0.0, 0.15),
     )
     tx = dict(base["tx"])
@@ -39,7 +39,7 @@ def profile(name, **kw):
     PROFILES[name] = base
 
 
-profile("C09", tx=dict(edit=8, query=5, relabel=1, derive_edit=1, persist=0, large=0.08, dense=0.5, build=1), steps=(30, 120))
+profile("C09", tx=dict(edit=8, query=5, relabel=1, derive_edit=1, persist=0, large=0.08, dense=0.5, religand=1, build=1), steps=(30, 120))
 profile("C19", tx=dict(edit=6, query=2, faults=4, relabel=1, build=1), steps=(30, 90), fault_rate=(0.05, 0.3))
 profile("C10", tx=dict(edit=3, query=1, derive_edit=8, relabel=1, react=1, persist=1, algebra=2, isomers=1, changeshare=3, build=1),
         nontarget=True, check_all_every=4, callers=(2, 4))
@@ -60,7 +60,7 @@ profile("C17", tx=dict(edit=4, algebra=8, query=1, large=0.08, dense=0.5, build=
 
 def make_config(rng, prof_name, tier):
     p = PROFILES[prof_name]
-    style = rng.choice(("dense", "dense", "sparse", "negative", "huge", "mixed"))
+    style = rng.choice(("dense", "dense", "sparse", "negative", "huge", "mixed", "dense", "sparse", "negative", "huge", "mixed", "pow32"))
     n_ids = rng.randint(p["max_atoms"][0] + 1, p["max_atoms"][1] + 2)
     if style == "dense":
         ids = list(range(n_ids))
@@ -70,6 +70,8 @@ def make_config(rng, prof_name, tier):
         ids = [i - n_ids // 2 for i in range(n_ids)]
     elif style == "huge":
         ids = [2 ** 40 + i * 7 for i in range(n_ids)]
+    elif style == "pow32":
+        ids = [(i % 2) * 2 ** 32 + i // 2 for i in range(n_ids)]     # 0, 2^32, 1, 2^32+1, ...
     else:
         ids = sorted(rng.sample(range(-5, 40), n_ids))
     ids = list(dict.fromkeys(ids))
@@ -763,7 +765,7 @@ class Gen:
             for s in self.graphs(unlocked=True)[:2]:
                 yield dict(k="drop", s=s)
         s = self.slot_id()
-        n = rng.choice((129, 130, 140, 160, 200, 257) if self.tier == "thorough" else (129, 130, 136, 150, 180))
+        n = rng.choice((18, 24, 33, 40, 129, 130, 140, 160, 200, 257) if self.tier == "thorough" else (18, 24, 33, 129, 130, 136, 150, 180))
         kind = rng.choice(self.cfg["classes"])
         yield dict(k="bulk", dst=s, cls=kind, n=n, seed=rng.randrange(2 ** 31),
                    base=rng.choice((0, -50, 1000)), stride=rng.choice((1, 1, 3)), els=sorted(set(self.cfg["elements"]))[:3])
@@ -778,6 +780,15 @@ class Gen:
             r = rng.random()
             if r < 0.35:
                 yield self.rand_mutator(s)
+            elif r < 0.45 and m.astereo:
+                # remove an atom, re-ligand a centre, remove the new ligand
+                yield dict(k="remove_atom", s=s, a=rng.choice(m.sorted_atoms()))
+                rr = self.religand(s)
+                if rr is not None:
+                    for op in rr[0]:
+                        yield op
+                    if self.w.graph(s) is not None:
+                        yield dict(k="remove_atom", s=s, a=rr[1])
             elif r < 0.5:
                 yield dict(k="q", s=s, q=rng.choice(("connectivity_matrix", "connected_components", "len", "hash", "eq_self")))
             elif r < 0.6:
@@ -1182,6 +1193,20 @@ class Gen:
             yield dict(k="relabel", src=src, dst=tgt, map=mp, copy=True)
         if self.w.graph(tgt) is None:
             return
+        if rng.random() < 0.3:
+            # give a centre a new ligand, then rename just that atom
+            rr = self.religand(tgt)
+            sl = self.w.graph(tgt)
+            if rr is not None and sl is not None and not sl.locks:
+                for op in rr[0]:
+                    yield op
+                sl = self.w.graph(tgt)
+                if sl is not None and rr[1] in sl.model.atoms:
+                    fresh = max(sl.model.sorted_atoms() + self.cfg["ids"]) + 1 + rng.randrange(3)
+                    if rng.random() < 0.5 and not sl.locks:
+                        yield dict(k="relabel", src=tgt, dst=None, map=[[rr[1], fresh]], copy=False)
+                    elif self.room():
+                        yield dict(k="relabel", src=tgt, dst=self.slot_id(), map=[[rr[1], fresh]], copy=True)
         # follow-up operations on the relabelled graph
         for _ in range(rng.randint(0, 5)):
             sl = self.w.graph(tgt)
@@ -1514,6 +1539,51 @@ class Gen:
         for x in slots:
             if x in self.w.slots and not self.w.slots[x].locks:
                 yield dict(k="drop", s=x)
+
+    def religand(self, s):
+        """ops: replace one ligand of an existing atom descriptor by another
+        atom of the graph (returns (ops, new ligand) or None)"""
+        rng = self.rng
+        sl = self.w.graph(s)
+        if sl is None or not sl.model.astereo:
+            return None
+        m = sl.model
+        c = rng.choice(sorted(m.astereo))
+        d = m.astereo[c]
+        others = [a for a in m.sorted_atoms() if a != c and a not in d[1]]
+        lig = list(d[1][1:])
+        idx = [i for i, x in enumerate(lig)]
+        if not others or not idx:
+            return None
+        y = rng.choice(others)
+        lig[rng.choice(idx)] = y
+        return [dict(k="set_astereo", s=s, d=model.list_desc((d[0], (c, *lig), d[2])))], y
+
+    def tx_religand(self):
+        """remove an atom, give a centre a new ligand, remove that ligand"""
+        rng = self.rng
+        c = [x for x in self.graphs(kinds=("SMG", "SCRG"), unlocked=True) if self.w.slots[x].model.astereo]
+        if not c:
+            yield from self.tx_build()
+            return
+        s = rng.choice(c)
+        m = self.w.slots[s].model
+        named = {x for _w, _k, _r, d in m.all_descs() for x in d[1] if x is not None}
+        plain = [a for a in m.sorted_atoms() if a not in named]
+        if plain and rng.random() < 0.7:
+            yield dict(k="remove_atom", s=s, a=rng.choice(plain))
+        r = self.religand(s)
+        if r is None:
+            return
+        ops, y = r
+        for op in ops:
+            yield op
+        sl = self.w.graph(s)
+        if sl is None or sl.locks:
+            return
+        if rng.random() < 0.3:
+            yield self.rand_query(s)
+        yield dict(k="remove_atom", s=s, a=y)
 
     def tx_hubs(self):
         """two molecules with hypervalent centres (7 neighbours, no descriptor)
@@ -1889,10 +1959,10 @@ class Gen:
                 return dict(k="add_bond", s=s, a=x, b=y, kw={})
         if k == "remove_bond" and m.bonds:
             plain = [b for b in m.sorted_bonds() if B(*b) not in m.bstereo]
-            x, y = rng.choice(plain) if plain else self.present_bond(m)
-            if B(x, y) in m.bstereo:
+            x, y = rng.choice(plain) if plain and rng.random() < 0.7 else self.present_bond(m)
+            if B(x, y) in m.bstereo and rng.random() < 0.7:
                 return dict(k="del_bstereo", s=s, a=x, b=y)
-            return dict(k="remove_bond", s=s, a=x, b=y)
+            return dict(k="remove_bond", s=s, a=x, b=y)   # may leave the bond's descriptor behind
         if k in ("set_astereo", "reclass"):
             d = self.atom_desc(m, cls=rng.choice(geom.ATOM_CLASSES) if k == "reclass" else None)
             if d:
@@ -2019,14 +2089,58 @@ class Gen:
                 if self.w.graph(d) is not None:
                     parts.append(d)
             if parts and self.room() and len(parts) == len(comps):
+                for x in parts:
+                    if rng.random() < 0.6 and self.w.graph(x) is not None:
+                        yield dict(k="q", s=x, q="connected_components")      # the pieces have been asked before
                 d = self.slot_id()
                 yield dict(k="compose", srcs=parts, dst=d, cls=m.kind, **{"as": rng.choice(("list", "tuple", "gen"))})
                 if self.w.graph(d) is not None:
                     yield dict(k="probe_pair", s1=s, s2=d)
                     yield dict(k="q", s=d, q="connected_components")
+                    if rng.random() < 0.5 and self.w.graph(d) is not None and not self.w.slots[d].locks:
+                        md = self.w.slots[d].model
+                        yield dict(k="relabel", src=d, dst=None, map=self.rand_mapping(md), copy=False)
+                        for x in parts[:2]:
+                            if self.w.graph(x) is not None:
+                                yield dict(k="q", s=x, q="connected_components")
             for d in parts:
                 if rng.random() < 0.8 and d in self.w.slots:
                     yield dict(k="drop", s=d)
+        elif r < 0.8 and m.has_changes and (m.achange or m.bchange) and len(self.w.slots) + 3 <= self.w.max_slots:
+            # two overlapping pieces that disagree about a stereo change; one of
+            # them has been cut before (whatever it memoised must not travel)
+            d = self.slot_id()
+            yield dict(k="copy", src=s, dst=d)
+            sl = self.w.graph(d)
+            if sl is None:
+                return
+            for _ in range(rng.randint(1, 2)):
+                op = self.change_op(d, sl.model, rng.choice(("set_achange", "set_bchange")))
+                if op:
+                    # same centre as an existing change of s, if there is one
+                    yield op
+            q = self.slot_id()
+            yield dict(k="subgraph", src=rng.choice((s, d)), dst=q, atoms=m.sorted_atoms(), **{"as": "list"})
+            if q in self.w.slots:
+                yield dict(k="drop", s=q)
+            if self.w.graph(s) is None or self.w.graph(d) is None or not self.room():
+                return
+            e = self.slot_id()
+            srcs = [s, d] if rng.random() < 0.5 else [d, s]
+            yield dict(k="compose", srcs=srcs, dst=e, cls=m.kind, **{"as": "list"})
+            sle = self.w.graph(e)
+            if sle is not None:
+                me = sle.model
+                cuts = self.cut_sets(me)
+                S = list(rng.choice(cuts)) if cuts and rng.random() < 0.6 else me.sorted_atoms()
+                f = self.slot_id()
+                if self.room():
+                    yield dict(k="subgraph", src=e, dst=f, atoms=S, **{"as": rng.choice(("list", "set"))})
+                    if f in self.w.slots:
+                        yield dict(k="drop", s=f)
+            for x in (d, e):
+                if x in self.w.slots and not self.w.slots[x].locks:
+                    yield dict(k="drop", s=x)
         elif r < 0.9:
             others = [x for x in c if x != s]
             srcs = [s] + (rng.sample(others, min(len(others), rng.randint(1, 3))) if others else [])
